@@ -310,4 +310,18 @@ def Chrono (t0 : Nat) : List (Nat × Ev) → Prop
   | [] => True
   | e :: rest => t0 ≤ e.1 ∧ Chrono e.1 rest
 
+instance : (t0 : Nat) → (l : List (Nat × Ev)) → Decidable (Chrono t0 l)
+  | _, [] => isTrue trivial
+  | t0, e :: rest =>
+    match (inferInstance : Decidable (t0 ≤ e.1)), instDecidableChrono e.1 rest with
+    | isTrue h1, isTrue h2 => isTrue ⟨h1, h2⟩
+    | isFalse h1, _ => isFalse (fun h => h1 h.1)
+    | _, isFalse h2 => isFalse (fun h => h2 h.2)
+
+/-- sortedness of a knot list as the driver checks it -/
+def sortedB : List Rat → Bool
+  | [] => true
+  | [_] => true
+  | a :: b :: rest => decide (a ≤ b) && sortedB (b :: rest)
+
 end RtcVerif.C20
